@@ -389,6 +389,7 @@ func (x *exec) dispatch(st *State, fr *Frame, ins ssa.Instruction, c *ssa.CallCo
 func (x *exec) inline(st *State, fr *Frame, ins ssa.Instruction, ci calleeInfo, args []Value, k cont) {
 	fn := ci.fn
 	x.recordEventVals(st, ins, ci.key, "inline", args, paramNames(ci, nil))
+	st.trace[len(st.trace)-1].Quiet = true
 	nf := &Frame{fn: fn, depth: fr.depth + 1, parent: fr, site: ins, loops: x.loopInfoOf(fn)}
 	nf.k = func(st *State, rets []Value) { k(st, rets) }
 	for i, p := range fn.Params {
@@ -508,6 +509,7 @@ func (x *exec) applyContract(st *State, fr *Frame, ins ssa.Instruction, ci calle
 	}
 	pre := st.snapshot()
 	x.recordEventVals(st, ins, ci.key, kind, args, names)
+	st.trace[len(st.trace)-1].Quiet = fs.Pure || fs.Silent
 	// frame
 	if !fs.Pure && !fs.NoEffect {
 		if fs.ModAll {
